@@ -24,11 +24,10 @@ class FixEmptySequenceComparison(
     def leave_Comparison(
         self, original_node: cst.Comparison, updated_node: cst.Comparison
     ):
-        del updated_node
         if not self.filter_by_path_includes_or_excludes(
             self.node_position(original_node)
         ):
-            return original_node
+            return updated_node
 
         maybe_parent = self.get_parent(original_node)
 
@@ -71,7 +70,7 @@ class FixEmptySequenceComparison(
                                     )
                                 )
 
-        return original_node
+        return updated_node
 
     def _is_empty_sequence(self, node: cst.BaseExpression):
         match node:
